@@ -259,7 +259,7 @@ func c17Search(r *rand.Rand, bin, dir string, id int) c17Case {
 		noCross = true
 		args = append(args, "--no-cross-platform")
 	}
-	args = append(args, "--database", dbfile, q)
+	args = append(args, "--database", dbfile, "--", q) // "--": a query may begin with a dash
 	c.Args, c.Env = intsList(args), env
 
 	// a history already present in 1/3 of the runs
